@@ -59,6 +59,9 @@ def gen_cases_for(seed_, n):
         rng = rng_for(PROP, seed_, i)
         nthreads = 1 if i % 5 == 0 else rng.choice([2, 2, 3, 4, 4, 6, 8])
         inputs, ops = [], []
+        # one list of disabled string types for all Cli threads of the case, another one in (nearly) every case: whatever the Cli keeps
+        # per option set is then used for the first time in this process by several threads at once
+        dis = rng.sample(["int", "float", "bool", "IntString", "FloatString", "BooleanString"], rng.choice([0, 1, 1, 2, 2, 3]))
         for k in range(nthreads):
             inp, flat = make_input(rng, k)
             inputs.append(inp)
@@ -67,6 +70,8 @@ def gen_cases_for(seed_, n):
                 extra = ["--merge", "exact"] if inp["merge"] == [["exact"]] else []
                 if inp["registry"] == list(gen.STR_TYPES):
                     extra += ["--datetime"]
+                if dis:
+                    extra += ["--disable-str-serializable-types"] + dis
                 ops.append({"op": "cli", "input": k, "fw": rng.choice(FWS), "flat": True, "extra": extra, "outname": f"models_{k}.py",
                             "fmt": "yaml" if i % 12 == 7 else "json"})
             elif nthreads == 1 and i % 10 == 5:
